@@ -647,6 +647,11 @@ func generateLR(c *gctx) *Grammar {
 			&Rule{Name: "Aa", Expr: ref("Bb")},
 			&Rule{Name: "Bb", Expr: ref("Cc")},
 			&Rule{Name: "Cc", Expr: &Expr{Kind: Choice, Subs: []*Expr{ref("Aa"), act(operand())}}})
+		if c.chance(1, 2) {
+			// no way out at all: the cycle can only fail, which the runtime must
+			// find out within its budget
+			g.Rules[3].Expr = ref("Aa")
+		}
 	case 1: // mutual: A <- B x / y ; B <- A z / w
 		g.Rules = append(g.Rules,
 			&Rule{Name: "Start", Expr: ref("Aa")},
